@@ -119,6 +119,11 @@ func (c VSCRelay) NewWorker(stats *engine.Stats) (engine.Worker, error) {
 		return nil
 	}
 	ci := env.ConsumerInit{Spawn: st.Time(), Unbonding: 900 * time.Second}
+	if c.Variant == "batch" || c.Variant == "expiry" {
+		// the consumer prunes historical info after two blocks: whatever else is pruned with it shows in
+		// the height -> update-id history the monitor keeps checking for every past height
+		ci.Historical = 2
+	}
 	if err := must(env.MsgCreateConsumer(A, "cons-x", ci.Params("cons-x"), &providertypes.PowerShapingParameters{ValidatorsPowerCap: 0})); err != nil {
 		return nil, err
 	}
